@@ -8,6 +8,7 @@ import (
 	"go/token"
 	"go/types"
 	"os"
+	"path/filepath"
 	"sort"
 	"strings"
 	"sync"
@@ -64,6 +65,13 @@ func Load(dir string, needDeps bool) (*Prog, error) {
 		if ierr != nil {
 			inlineLog = append(inlineLog, "inline pre-pass failed: "+ierr.Error())
 			overlay = nil
+		}
+	}
+	if d := os.Getenv("BNGVET_DUMP_OVERLAY"); d != "" { // debugging aid: what the rules actually see
+		for f, b := range overlay {
+			rel, _ := filepath.Rel(dir, f)
+			os.MkdirAll(filepath.Join(d, filepath.Dir(rel)), 0o755)
+			os.WriteFile(filepath.Join(d, rel), b, 0o644)
 		}
 	}
 	cfg := &packages.Config{Mode: mode, Dir: dir, Env: env, Tests: false, Overlay: overlay}
